@@ -30,7 +30,9 @@ CONSTANTS Budgets,     \* design model: set of evaluation budgets (nbEvalMax)
           MaxRank,     \* design model: objective values are the ranks 0..MaxRank
           MaxInner,    \* design model: evaluations per step / extra counter increments per step <= MaxInner
           Boxes,       \* design model: set of boxes (sequences of <<has, inclLower, inclUpper>>)
-          KConv        \* E4: accepted distance to the minimiser, in units of sqrt(tolerance)*max(1,|m|), times 1000
+          KConv,       \* E4: accepted distance to the minimiser, in units of sqrt(tol*max(1,|f*|))*max(1,|m|), times 1000,
+                       \*     for optimisers whose stop condition watches the function value
+          KConvX       \* same for optimisers whose stop condition watches the abscissa itself (Brent, golden section)
 
 VARIABLES
   phase,    \* "New" | "Initing" | "Inited" | "Running" | "Stepping" | "Done" | "Dead" | "Bracketing"
@@ -38,7 +40,8 @@ VARIABLES
   box,      \* per coordinate <<has, inclLower, inclUpper>>
   max,      \* evaluation budget (nbEvalMax)
   obj,      \* [quad, inact, conv]: strictly convex quadratic / constraints inactive at the minimiser /
-            \* the optimiser is a minimiser (FALSE for the backtracking line search, which only promises descent)
+            \* conv: what the optimiser's stop condition watches: "f" the function value, "x" the abscissa,
+            \* "none" it is no minimiser (the backtracking line search only promises sufficient decrease)
   cnt,      \* optimiser's evaluation counter at the end of the last completed step of this optimize() (0: none yet)
   steps,    \* completed steps of this optimize()
   tol,      \* tolerance flag as last observed
@@ -220,8 +223,8 @@ FeasibleAlways == pol = "auto" => /\ ~infeas
 \* stopped by its own tolerance having used at most a tenth of its budget (so that no share of the
 \* budget handed to an inner optimiser can have been binding either):
 \* within KConv/1000 * sqrt(tolerance * max(1,|f*|)) * max(1,|m|) of the minimiser (sup norm)
-ConvApplies == HasRep /\ obj.quad /\ obj.inact /\ ~touched /\ obj.conv /\ rep.tol /\ rep.nb * 10 <= max
-Converged == ConvApplies => rep.q <= KConv
+ConvApplies == HasRep /\ obj.quad /\ obj.inact /\ ~touched /\ obj.conv # "none" /\ rep.tol /\ rep.nb * 10 <= max
+Converged == ConvApplies => rep.q <= (IF obj.conv = "x" THEN KConvX ELSE KConv)
 
 \* the point whose abscissa lies (weakly) between the other two has the lowest value
 Between(x, a, b) == (a <= x /\ x <= b) \/ (b <= x /\ x <= a)
@@ -249,11 +252,13 @@ B2 == <<TRUE, FALSE, TRUE>>      \* lower bound excluded
 B3 == <<TRUE, TRUE, FALSE>>      \* upper bound excluded
 Boxes1 == {<<B0>>, <<B1>>, <<B2>>}
 Boxes2 == {<<B0, B0>>, <<B1, B0>>, <<B2, B3>>}
-ObjsAll == {[quad |-> TRUE, inact |-> TRUE, conv |-> TRUE], [quad |-> FALSE, inact |-> TRUE, conv |-> TRUE]}
+ObjsAll == {[quad |-> TRUE, inact |-> TRUE, conv |-> "f"], [quad |-> FALSE, inact |-> TRUE, conv |-> "f"],
+            [quad |-> TRUE, inact |-> TRUE, conv |-> "x"], [quad |-> TRUE, inact |-> TRUE, conv |-> "none"]}
 BoxesL == {<<B1>>}
 BoxesQ == {<<B0>>, <<B2>>}
 BoxesQ1 == {<<B2>>}
-ObjsOne == {[quad |-> TRUE, inact |-> TRUE, conv |-> TRUE]}
+ObjsOne == {[quad |-> TRUE, inact |-> TRUE, conv |-> "f"]}
+ObjsTwo == {[quad |-> TRUE, inact |-> TRUE, conv |-> "f"], [quad |-> TRUE, inact |-> TRUE, conv |-> "x"]}
 \* What the AbstractOptimizer template plus a well-behaved doStep() produce.
 Ranks  == 0..MaxRank
 Codes  == {0, 1, 2, 3, 6}
@@ -281,7 +286,7 @@ DFinish    == /\ phase = "Running"
               /\ ~(cnt + 1 < max /\ ~tol)
               /\ \E p \in {q \in Points : pol = "auto" => FeasPoint(q)} :
                     \* stopping by tolerance means being at the minimiser; a budget stop may end anywhere
-                    \E q \in {0} \cup (IF tol /\ (cnt + 1) * 10 <= max /\ ~touched THEN {} ELSE {KConv + 1}) :
+                    \E q \in {0} \cup (IF tol /\ (cnt + 1) * 10 <= max /\ ~touched THEN {} ELSE {KConv + 1, KConvX + 1}) :
                        Finish("ok", held, held, held, Seq1(p), cnt + 1, tol, q)
 DRaise     == /\ phase = "Running" /\ pol = "keep" /\ Constrained
               /\ Finish("raise:ConstraintException", NoRank, NoRank, NoRank, <<>>, cnt + 1, tol, 0)
